@@ -513,23 +513,27 @@ _api = [H("core_units", "api::" + n, t, timeout=to, mem=6, mode="nomem", doc=d) 
     # the parser's own header (concrete) followed by a fully symbolic tail: strict canonical base64url + Display round trip
     ("keytext_local_t1", "t", 600, "KeyText<Local>: header + 1 char (never valid)"),
     ("keytext_local_t2", "qt", 900, "KeyText<Local>: header + 2 chars: strict canonical base64url and Display round trip"),
-    ("keytext_local_t3", "qt", 900, "KeyText<Local>: header + 3 chars"),
+    ("keytext_local_t3", "t", 1500, "KeyText<Local>: header + 3 chars"),
     ("keytext_local_t4", "t", 900, "KeyText<Local>: header + 4 chars"),
     ("keytext_local_t6", "t", 1200, "KeyText<Local>: header + 6 chars"),
     ("keytext_local_t7", "t", 1500, "KeyText<Local>: header + 7 chars"),
     ("keytext_secret_t3", "t", 900, "KeyText<Secret>"), ("keytext_public_t2", "t", 900, "KeyText<Public>"),
     ("keytext_v3_local_t3", "t", 900, "KeyText with the default PASERK header k3"),
-    ("pie_local_t3", "qt", 900, "PieWrappedKey<Local> FromStr/Display"), ("pie_secret_t4", "t", 900, "PieWrappedKey<Secret>"),
-    ("pw_local_t3", "qt", 900, "PasswordWrappedKey<Local>"), ("pw_secret_t2", "t", 900, "PasswordWrappedKey<Secret>"),
-    ("seal_t3", "qt", 900, "SealedKey"), ("seal_t4", "t", 900, "SealedKey"),
+    ("pie_local_t2", "qt", 900, "PieWrappedKey<Local>: header + 2 chars"), ("pw_local_t2", "qt", 900, "PasswordWrappedKey<Local>: header + 2 chars"), ("seal_t2", "qt", 900, "SealedKey: header + 2 chars"),
+    ("pie_local_t3", "t", 1500, "PieWrappedKey<Local> FromStr/Display"), ("pie_secret_t4", "t", 900, "PieWrappedKey<Secret>"),
+    ("pw_local_t3", "t", 1500, "PasswordWrappedKey<Local>"), ("pw_secret_t2", "t", 900, "PasswordWrappedKey<Secret>"),
+    ("seal_t3", "t", 1500, "SealedKey"), ("seal_t4", "t", 900, "SealedKey"),
     ("keyid_lid_44", "t", 1800, "KeyId<Local>: header + every 44-byte tail; accepted iff canonical; Display round trip"),
     ("keyid_lid_43", "t", 1800, "KeyId: 43 characters (32 bytes) rejected"), ("keyid_lid_46", "t", 1800, "KeyId: 46 characters (34 bytes) rejected"),
     ("keyid_sid_44", "t", 1800, "KeyId<Secret>"), ("keyid_pid_44", "t", 1800, "KeyId<Public>"),
     ("key_fromstr_is_keytext_then_decode", "qt", 900, "Key::from_str = KeyText::from_str then V::decode on exactly the decoded bytes (header fixed, 4-char symbolic tail)"),
     ("keyid_roundtrip_eq_ord_hash", "t", 1800, "KeyId: FromStr(Display(id)) == id; Eq/Ord/Hash agree with the 33 bytes"),
-    ("token_p4_nodot", "qt", 900, "SealedToken: 'v4.local.' + every 4-byte tail without '.', accepted iff canonical base64url; Display round trip"),
+    ("token_p2_nodot", "qt", 900, "SealedToken: 'v4.local.' + every 2-byte tail without '.': accepted iff canonical base64url; Display round trip"),
+    ("token_p2_dot_f0", "qt", 900, "SealedToken 2-char payload + trailing '.': Display drops it"),
+    ("token_p2_dot_f1", "qt", 900, "SealedToken 2-char payload, '.', one arbitrary byte (a 1-char footer is never valid, a second '.' is rejected)"),
+    ("token_p4_nodot", "t", 1500, "SealedToken: 'v4.local.' + every 4-byte tail without '.', accepted iff canonical base64url; Display round trip"),
     ("token_p3_nodot", "t", 900, "SealedToken, 3-char payload"), ("token_p0_nodot", "t", 600, "SealedToken, empty payload"),
-    ("token_p4_dot_f0", "qt", 900, "SealedToken with trailing '.': Display drops it"),
+    ("token_p4_dot_f0", "t", 1800, "SealedToken with trailing '.': Display drops it"),
     ("token_p4_dot_f2", "t", 900, "SealedToken payload.footer; a second '.' in the footer segment is rejected"),
     ("token_p3_dot_f3", "t", 900, "SealedToken 3-char payload, 3-char footer"),
     ("token_p0_dot_f4", "t", 900, "SealedToken empty payload, 4-char footer"),
@@ -623,7 +627,7 @@ for _h in PROPS["C04"].harnesses + PROPS["C09"].harnesses:
         n = _h.name
         keep = ("l0_" in n or any(n.endswith(x) for x in ("strict_n0", "strict_n2", "strict_n3", "strict_n4", "strict_n5", "strict_n6", "small_dst", "roundtrip_empty",
                 "roundtrip_n1", "roundtrip_n2", "roundtrip_n3", "roundtrip_n4", "agrees_n2", "agrees_n3", "keytext_local_t0", "keytext_local_t2", "keytext_local_t3",
-                "pie_local_t3", "pw_local_t3", "seal_t3", "token_p4_nodot", "token_p4_dot_f0", "key_fromstr_is_keytext_then_decode", "l3_unseal_exact_p3_f0_a0",
+                "pie_local_t2", "pw_local_t2", "seal_t2", "token_p2_nodot", "token_p2_dot_f0", "token_p2_dot_f1", "key_fromstr_is_keytext_then_decode", "l3_unseal_exact_p3_f0_a0",
                 "seal_hdr_t0", "token_hdr_p0_nodot")))
         if not keep:
             _h.tiers = "t"
